@@ -55,7 +55,26 @@ def _evaluate(case: Dict[str, Any]) -> Dict[str, Any]:
         out["order0"] = _order(lambda: b.dag(), keymap)
     if case.get("reconf") is not None:
         conf = {"nodes": {s.lstrip(prog.MARK): {"priority": p} for s, p in case["reconf"].items()}}
-        b.dag.config_from_dict(conf)
+        via = case.get("reconf_via", "dict")
+        if via == "dict":
+            b.dag.config_from_dict(conf)
+        else:
+            # the configuration file of this process: one path, rewritten for every case (as a user edits a file)
+            import os
+            import tempfile
+
+            path = os.path.join(tempfile.gettempdir(), f"vlib_c07_{os.getpid()}.{via}")
+            with open(path, "w") as f:
+                if via == "json":
+                    json.dump(conf, f)
+                else:
+                    import yaml
+
+                    yaml.safe_dump(conf, f)
+            try:
+                (b.dag.config_from_json if via == "json" else b.dag.config_from_yaml)(path)
+            finally:
+                os.remove(path)
         out["t1"] = _table(b.dag.graph_ids, ids)
         if case.get("order", True):
             out["order1"] = _order(lambda: b.dag(), keymap)
